@@ -330,7 +330,9 @@ func (cr *ClientRun) interp(ops []Op, tag string, gates *Gates, sendSeq *int) {
 			if err != nil {
 				rec.mu.Lock()
 				if rec.SendErr == nil {
-					rec.SendErr = err
+					// whatever its value (a transport may have failed with io.EOF), an error from
+					// CloseSend is a failure reported to the caller, not an end-of-stream signal
+					rec.SendErr = fmt.Errorf("CloseSend failed: %w", err)
 				}
 				rec.mu.Unlock()
 				return
@@ -409,7 +411,9 @@ func StartClient(ctx context.Context, cancel func(), fire func(), cc grpc.Client
 		if err != nil {
 			cr.OpenErr = err
 			cr.Rec.mu.Lock()
-			cr.Rec.SendErr = err
+			// an error from opening the stream is a failure whatever its value (a transport may have
+			// failed with io.EOF, which only RecvMsg uses to signal a successful end)
+			cr.Rec.SendErr = fmt.Errorf("open failed: %w", err)
 			cr.Rec.Done = true
 			cr.Rec.mu.Unlock()
 			if s == nil {
